@@ -325,6 +325,13 @@ def _shift_imm(elem, kind):
             c = cnt.imm & 0xFF
         out = []
         for ln in lanes(src, elem):
+            if any(isinstance(b, (bv.Lin, bv.LinPart)) for b in ln):
+                v = bv.join_bytes(ln)
+                if kind == "a":
+                    raise bv.NonLinear("arithmetic shift of Z-linear value")
+                r = bv.shl(elem * 8, v, c) if kind == "l" else bv.lshr(elem * 8, v, c)
+                out.extend(bv.split_bytes(elem * 8, r))
+                continue
             if kind == "l":
                 out.extend([0] * elem if c >= elem * 8 else shl_bytes(ln, c))
             elif kind == "r":
